@@ -58,7 +58,7 @@ PROPS = {
                 rule="as C01 plus stand-alone IPA proofs; byte-for-byte comparison of the serialized proof and of the post-proof challenge with the Lean model (which reproduces the published cross-implementation vectors), under several CPU-count/GOMAXPROCS configurations."),
     "C04": dict(ties=['Loops', 'Protocol', 'BVector', 'Schedules', 'Consts', 'GoIpa.Lemmas.IpaAlgebra', 'GoIpa.Lemmas.FoldingScalars', 'GoIpa.Props.C04Value', 'GoIpa.Lemmas.Simulation', 'GoIpa.Props.ConcreteExec'], level="proof", selftest=True, modes=[{"name": "default"}, {"name": "cpu3", "prefix": taskset(3)}, {"name": "cpu6-procs5", "prefix": taskset(6), "env": {"GOMAXPROCS": "5"}}],
                 rule="evaluation points 0,1,254,255,256,257,2^64-1,2^64,2^64+1,r-1,r-256,random x polynomials zero/constant/unit/sparse/r-1/random; result p(z) must be accepted, p(z)+1, p(z)-1 and 0 rejected (asserted on the implementation); barycentric value against direct Lagrange evaluation."),
-    "C05": dict(ties=['Formulas', 'Consts', 'Selector', 'Precomp', 'PrecompFull', 'GoIpa.Props.C05Translated'], level="proof",
+    "C05": dict(ties=['Formulas', 'Consts', 'Selector', 'Precomp', 'PrecompFull', 'BatchConv', 'GoIpa.Props.C05Translated'], level="proof",
                 modes=[{"name": "default"}, {"name": "cpu6", "prefix": taskset(6)}, {"name": "cpu3-procs3", "prefix": taskset(3)}],
                 thorough=dict(modes=[{"name": "default"}, {"name": "cpu6", "prefix": taskset(6)}, {"name": "cpu3-procs3", "prefix": taskset(3)},
                                      {"name": "cpu5", "prefix": taskset(5)}, {"name": "cpu7", "prefix": taskset(7)}, {"name": "cpu12", "prefix": taskset(12)}]),
@@ -69,7 +69,7 @@ PROPS = {
                 rule="elements reached by random histories (Add, Sub, Double, Neg, ScalarMul, AddMixed, Set, Normalize, MSM both engines, decode) in representations Z=1 / rescaled / sign-flipped, including the all-zero value; Bytes, Equal matrix over all pairs, decode(Bytes)."),
     "C08": dict(ties=['Formulas', 'Elements', 'GoIpa.Lemmas.EdwardsAssoc', 'GoIpa.Props.C08Group', 'GoIpa.Props.C08Order', 'GoIpa.Props.C08Concrete'], level="proof",
                 rule="random group histories plus explicit law instances ((s+t)P, s(P+Q), 0*P, (r-1)P+P, P-P, P+O, -P) with special scalars; every operation also executed with the receiver aliasing each operand; all representations; identity-class operands of ScalarMul."),
-    "C09": dict(ties=['Msm', 'Selector', 'MsmChunk', 'Recode', 'MultiExpDriver', 'GoIpa.Lemmas.Pippenger', 'GoIpa.Lemmas.PipBits', 'GoIpa.Props.C09Msm'], level="proof", workers=4, model_workers=16,
+    "C09": dict(ties=['Msm', 'Selector', 'MsmChunk', 'Recode', 'MultiExpDriver', 'BatchConv', 'GoIpa.Lemmas.Pippenger', 'GoIpa.Lemmas.PipBits', 'GoIpa.Props.C09Msm'], level="proof", workers=4, model_workers=16,
                 rule="n crossing every window-size threshold up to 4097 (thorough 32768), NbTasks in {0,1,2,3,5,8,16,17,64,1024}, Montgomery and regular scalars, >=10% small scalars, duplicates / opposite points / identity, zero and r-1 scalars; every implemented window c in {4..16,20,21,22} through the internal entry point with boundary digit patterns, with and without first-chunk split."),
     "C10": dict(ties=['Consts', 'Serde'], level="proof",
                 rule="honest 576-byte proofs, one byte short/long, lengths 0..1152, field-wise boundary values (p-1,p,p+1,0,2^256-1, non-subgroup, off-curve, x+p; r-1,r,r+1,s+r) at each of the 18 positions, random bit flips; reader scripts: one shot, 1 byte at a time, halves, data+EOF together, odd chunkings, I/O failure at offset k; writer failing at each Write call."),
